@@ -600,6 +600,62 @@ def r6_filter_before_split(rep, src, M):
         raise AnalysisError('only %d calls of the paragraph splitter found (2 confirmed on the pinned tree)' % n)
 
 
+def r7_encoding_reaches_decoder(rep, src):
+    """a reader that turns text lines into bytes before handing them to the paragraph parser (to keep the raw bytes of a signed
+    document) must have them decoded with the encoding it encoded them with: the encoding argument of the encode helper flows
+    into the `encoding` keyword of the base constructor on the path that replaces the input by the encoded lines.  Otherwise a
+    text file object whose encoding is not UTF-8 is read differently from the same text given as str."""
+    f = src.func('deb822:_gpg_multivalued.__init__')
+    rep.saw_func(f)
+    enc_calls = [c for c in ast.walk(f.node) if isinstance(c, ast.Call) and isinstance(c.func, ast.Attribute) and c.func.attr in ('_bytes', 'encode') and c.args]
+    names = set()
+    for c in enc_calls:
+        a = c.args[-1]
+        if isinstance(a, ast.Name):
+            names.add(a.id)
+    if len(names) != 1:
+        raise AnalysisError('%s: the encoding used to turn text lines into bytes is not one local (%s)' % (f.site, sorted(names)))
+    enc = next(iter(names))
+    g = cfg.CFG(f.node)
+    base_calls = [c for c in ast.walk(f.node) if isinstance(c, ast.Call) and isinstance(c.func, ast.Attribute) and c.func.attr == '__init__' and norm(c.func.value) != 'self']
+    if len(base_calls) != 1:
+        raise AnalysisError('%s: base constructor call not found' % f.site)
+    bc = base_calls[0]
+    # stores kwargs['encoding'] = <enc> / an explicit encoding=<enc> keyword of the base call
+    passes = any(k.arg == 'encoding' and norm(k.value) == enc for k in bc.keywords)
+    stores = [st for st in ast.walk(f.node) if isinstance(st, ast.Assign) and len(st.targets) == 1 and isinstance(st.targets[0], ast.Subscript)
+              and isinstance(st.targets[0].slice, ast.Constant) and st.targets[0].slice.value == 'encoding' and norm(st.value) == enc
+              and any(k.arg is None and norm(k.value) == norm(st.targets[0].value) for k in bc.keywords)]
+    # the replacement of the input by the encoded lines
+    repl = [st for st in ast.walk(f.node) if isinstance(st, ast.Assign) and len(st.targets) == 1 and isinstance(st.targets[0], ast.Subscript)
+            and ((isinstance(st.targets[0].slice, ast.Constant) and st.targets[0].slice.value in (0, 'sequence')))]
+    if not repl:
+        raise AnalysisError('%s: the replacement of the input by the encoded lines was not found' % f.site)
+    what = 'encoded lines are decoded with the encoding they were encoded with'
+    if passes:
+        rep.ok('C02.R7', f.site, what, 'encoding=%s in the base constructor call' % enc)
+        return
+    # every path from a replacement to the base call passes a store (or the store dominates the call from the replacement's block)
+    bn = g.node_for(bc).id
+    # a store that only depends on how many positional arguments were given (the encoding passed positionally cannot be given again
+    # as a keyword) counts as unconditional: the test node is avoided together with the store
+    guards = set()
+    for s_ in stores:
+        par = getattr(s_, '_parent', None)
+        if isinstance(par, ast.If) and s_ in par.body and not par.orelse and all(isinstance(n_, (ast.Name, ast.Constant, ast.Compare, ast.Call, ast.Load, ast.Lt, ast.LtE, ast.Gt, ast.GtE))
+                                                                             for n_ in ast.walk(par.test)) \
+                and {n_.id for n_ in ast.walk(par.test) if isinstance(n_, ast.Name)} <= {'len', 'args'}:
+            guards.add(g.node_for(par.test).id if hasattr(g, 'node_for') else None)
+    ok = bool(stores) and all(not g.exists_path(g.node_for(r_).id, bn, avoid=({g.node_for(s_).id for s_ in stores} | guards) - {g.node_for(r_).id}) or
+                              any(g.node_for(s_).id == g.node_for(r_).id for s_ in stores) for r_ in repl)
+    if ok:
+        rep.ok('C02.R7', f.site, what, "kwargs['encoding'] = %s on every path from the replacement to the base constructor" % enc)
+    else:
+        rep.fail('C02.R7', f.site, what, 'the text lines of a file object are turned into bytes with `%s` (the file object\'s own encoding when it has one) but the base constructor '
+                 'decodes them with its default: Dsc/Changes built from a text file opened with latin-1 or utf-8-sig differ from the same text given as str (mojibake, a BOM in '
+                 'front of every field name)' % enc, where=f.where)
+
+
 def check(src, rep, tier):
     rep.explanation = ('C02: the dump template of Deb822._dump_format is extracted (E3) and instantiated with the property\'s value '
                        'grammar (empty / empty first line + continuation / text first line / blank first line); the text language is '
@@ -623,3 +679,5 @@ def check(src, rep, tier):
     rep.guard('C02.R4', r4_accumulation, src, M)
     rep.guard('C02.R5', r5_key_acceptance, src, M)
     rep.guard('C02.R6', r6_filter_before_split, src, M)
+    rep.need('C02.R7', 1)
+    rep.guard('C02.R7', r7_encoding_reaches_decoder, src)
